@@ -3601,7 +3601,7 @@ class DecVar(Vars):
 
             if len(outputs) > 1:
                 ind_label = self.dro_model.series_scen.index
-                return pd.Series([outputs[edict[key]] for key in edict],
+                return pd.Series([outputs[edict[s]] for s in range(len(edict))],
                                  index=ind_label)
             else:
                 return outputs[0]
@@ -3628,7 +3628,7 @@ class DecVar(Vars):
 
             if len(outputs) > 1:
                 ind_label = self.dro_model.series_scen.index
-                return pd.Series([outputs[edict[key]] for key in edict],
+                return pd.Series([outputs[edict[s]] for s in range(len(edict))],
                                  index=ind_label)
             else:
                 return outputs[0]
